@@ -5,6 +5,7 @@ import IrefVerif.Findings
 import IrefVerif.Lemmas.ResolveEmpty
 import IrefVerif.Lemmas.ResolveAuth
 import IrefVerif.Lemmas.ResolveRel
+import IrefVerif.Lemmas.ResolveRelNoAuth
 import IrefVerif.Lemmas.ResolveTotal
 import IrefVerif.Lemmas.IriBytes
 import IrefVerif.Props.Valid
@@ -45,9 +46,12 @@ either family (octet level), in all five branches of §5.2.2:
 So for a base with an authority and a reference without scheme the model is the RFC exactly
 outside F15 (`resolve_relative_reference`), which also shows that the class recorded for F15 is
 complete there.
-PARTIAL: the relative-path merge against a base *without* authority (where the RFC text itself
-can turn a relative path into an absolute one), and the inputs excluded by `needsShield`, are
-judged on the implementation only.
+* the same against a base *without* authority whose path is absolute, outside F15 and wherever
+  the RFC target path does not begin with `//` (`resolve_relative_noauthority`; there the code
+  writes the shield `/.` and the RFC text would be read as an authority).
+PARTIAL: the relative-path merge against a base without authority whose path is relative or empty
+(where the RFC text itself can turn a relative path into an absolute one), and the inputs
+excluded by `needsShield` / the `//` condition, are judged on the implementation only.
 -/
 
 namespace IrefVerif.Props.C06
@@ -138,6 +142,29 @@ theorem resolve_relative_authority (G : Grammar) (ok : Grammar.Ok G) (okp : Gram
   have hB := wB.abempty (by simp [hab])
   exact Lemmas.resolve_relative_authority G ok okp base r ab hb hr hs ha hne hrl hab
     (Lemmas.noSkip_of_not_f15 base r ab hB hs ha hne hrl hab hf)
+
+/-- **§5.2.2, fifth branch, base without authority and with an absolute path**, outside the F15
+class and where the RFC target path does not begin with `//` -/
+theorem resolve_relative_noauthority (G : Grammar) (ok : Grammar.Ok G) (okp : Grammar.OkPath G) (base r : Text)
+    (hb : RE.Matches G.full base) (hr : RE.Matches G.reference r)
+    (hs : (split r).scheme = none) (ha : (split r).authority = none)
+    (hne : (split r).path ≠ []) (hrl : isAbs (split r).path = false)
+    (hab : (split base).authority = none) (hBabs : isAbs (split base).path = true)
+    (hf : Findings.f15 base r = false) (hamb : Lemmas.startsSS (resolveSpec base r).path = false) :
+    Model.Ref.resolve r base = some (recompose (resolveSpec base r)) := by
+  obtain ⟨q, hq⟩ : ∃ q, (split base).path = cSlash :: q := by
+    cases hpp : (split base).path with
+    | nil => rw [hpp] at hBabs; simp [isAbs] at hBabs
+    | cons c t =>
+      rw [hpp] at hBabs
+      have : c = cSlash := by simpa [isAbs] using hBabs
+      exact ⟨t, by rw [this]⟩
+  exact Lemmas.resolve_relative_noauthority G ok okp base r hb hr hs ha hne hrl hab hBabs
+    (Lemmas.noSkip_of_not_f15_noauth base r q hq hs ha hne hrl hab hf) hamb
+
+/-- non-vacuity: `s:/a/b` and `../c` meet the hypotheses -/
+example : Findings.f15 [0x73,0x3A,0x2F,0x61,0x2F,0x62] [0x2E,0x2E,0x2F,0x63] = false ∧
+    Lemmas.startsSS (resolveSpec [0x73,0x3A,0x2F,0x61,0x2F,0x62] [0x2E,0x2E,0x2F,0x63]).path = false := by decide
 
 /-- **every relative reference against a base with an authority**: outside the F15 class the model
 of `resolve` is RFC 3986 §5.2 -/
